@@ -266,3 +266,228 @@ func c12OwnSpec(c *Ctx, rule string) {
 		c.R.Check(bad == "" && len(locs) > 0, rule, "ResolveSpecSource: the "+what+" it answers is its own", c.P.Pos(rs.Pos()), "result is only: "+locsString(locs), "the "+what+" that ResolveSpecSource returns can be (part of) what the caller gave ("+bad+"): it is compiled in place and installed as the machine's, so machines made from one source value share one Spec with each other and with the caller")
 	}
 }
+
+// c02ErrorOrigins: C02-R11.  Whether matching ends in an error is a property of the pattern (and the matcher's
+// settings): every exit of the matcher that makes an error of its own — as opposed to handing on the error of a
+// recursive call — is decided by tests on values that derive from the pattern, never from the message or from the
+// sets of bindings found so far.  (A message that makes matching fail with an error is a message in which an embedded
+// instance of the pattern is not found.)
+func c02ErrorOrigins(c *Ctx, rule string, m *matchModel) {
+	var condRoles func(v ssa.Value, depth int, out map[string]bool)
+	condRoles = func(v ssa.Value, depth int, out map[string]bool) {
+		if v == nil || depth > 8 {
+			return
+		}
+		for r := range m.roles[v] {
+			out[r] = true
+		}
+		switch x := v.(type) {
+		case *ssa.BinOp:
+			condRoles(x.X, depth+1, out)
+			condRoles(x.Y, depth+1, out)
+		case *ssa.UnOp:
+			condRoles(x.X, depth+1, out)
+		case *ssa.Extract:
+			condRoles(x.Tuple, depth+1, out)
+		case *ssa.TypeAssert:
+			condRoles(x.X, depth+1, out)
+		case *ssa.Phi:
+			for _, e := range x.Edges {
+				condRoles(e, depth+1, out)
+			}
+		case *ssa.Lookup:
+			condRoles(x.X, depth+1, out)
+			condRoles(x.Index, depth+1, out)
+		case *ssa.Call:
+			for _, a := range x.Common().Args {
+				condRoles(a, depth+1, out)
+			}
+		}
+	}
+	fresh := func(v ssa.Value) bool {
+		switch x := v.(type) {
+		case *ssa.Call:
+			n := ssau.CalleeName(x)
+			return n == "errors.New" || n == "fmt.Errorf"
+		case *ssa.MakeInterface:
+			return true
+		case *ssa.UnOp:
+			_, isG := x.X.(*ssa.Global)
+			return isG
+		}
+		return false
+	}
+	n := 0
+	for _, f := range m.fns {
+		res := f.Signature.Results()
+		if res.Len() == 0 || res.At(res.Len()-1).Type().String() != "error" {
+			continue
+		}
+		for _, b := range f.Blocks {
+			ret, ok := b.Instrs[len(b.Instrs)-1].(*ssa.Return)
+			if !ok {
+				continue
+			}
+			for _, d := range phiEdgesWithBlocks(ret.Results[len(ret.Results)-1], b) {
+				if !fresh(d.v) {
+					continue
+				}
+				n++
+				var bad []string
+				for _, ft := range flow.FactsAt(d.b) {
+					rs := map[string]bool{}
+					condRoles(ft.Cond, 0, rs)
+					if rs["F"] {
+						bad = append(bad, fmt.Sprintf("%s (%s; derives from {%s})", ft.Cond.String(), c.pos(ft.If), keysOf(rs)))
+					}
+				}
+				c.R.Check(len(bad) == 0, rule, fmt.Sprintf("%s: error exit #%d is decided by the pattern", fname(f), n), c.pos(ret), "every test on the way to this exit is on values that derive from the pattern or the matcher's settings", "matching can fail with an error of its own depending on the message or on the bindings found so far: "+strings.Join(bad, "; "))
+			}
+		}
+	}
+	if n == 0 {
+		c.R.Break(rule + ": no error exit found in the matcher")
+	}
+}
+
+// c01ArrayVariable: C01-R10.  In the array case of the matcher the pattern's variable and its constant elements are
+// what getVariable found — nothing else takes their place — and a pattern array with a variable only matches through
+// arraycatMatch, which gives the variable an element of its own (and is where a bound or inequality variable is
+// judged): every success exit of the array case is under 'no variable' or after that call.
+func c01ArrayVariable(c *Ctx, rule string) {
+	match := c.P.Func("match", "Matcher", "match")
+	getVar := c.P.Func("match", "Matcher", "getVariable")
+	acm := c.P.Func("match", "Matcher", "arraycatMatch")
+	if match == nil || getVar == nil || acm == nil {
+		c.R.Break(rule + ": match, getVariable or arraycatMatch not found")
+		return
+	}
+	scope := []*ssa.Function{match}
+	for _, f := range pkgClosure(match) {
+		if prog.PkgOf(f) == "match" && f != getVar && f != acm && f != match {
+			scope = append(scope, f)
+		}
+	}
+	var gv *ssa.Call
+	ssau.Instrs(match, func(in ssa.Instruction) {
+		if cl, ok := in.(*ssa.Call); ok && cl.Common().StaticCallee() == getVar {
+			gv = cl
+		}
+	})
+	if gv == nil {
+		c.R.Break(rule + ": match does not call getVariable")
+		return
+	}
+	var v, xs ssa.Value
+	for _, r := range ssau.Referrers(gv) {
+		if ex, ok := r.(*ssa.Extract); ok {
+			switch ex.Index {
+			case 0:
+				v = ex
+			case 1:
+				xs = ex
+			}
+		}
+	}
+	if v == nil || xs == nil {
+		c.R.Break(rule + ": getVariable's results are not used")
+		return
+	}
+	onlyFrom := func(x ssa.Value, want ssa.Value) bool {
+		if mi, ok := x.(*ssa.MakeInterface); ok {
+			x = mi.X
+		}
+		ds := deepDefs(x, scope)
+		if len(ds) == 0 {
+			return false
+		}
+		for _, d := range ds {
+			if mi, ok := d.(*ssa.MakeInterface); ok {
+				d = mi.X
+			}
+			if d != want {
+				return false
+			}
+		}
+		return true
+	}
+	// the call that matches the variable
+	var vcall *ssa.Call
+	nacm := 0
+	ssau.Instrs(match, func(in ssa.Instruction) {
+		cl, ok := in.(*ssa.Call)
+		if !ok || cl.Common().StaticCallee() != acm || len(cl.Common().Args) < 3 {
+			return
+		}
+		nacm++
+		p := cl.Common().Args[2]
+		if mi, isMI := p.(*ssa.MakeInterface); isMI {
+			if _, isStr := mi.X.Type().Underlying().(*types.Basic); isStr {
+				vcall = cl
+				c.R.Check(onlyFrom(p, v), rule, "match: the variable handed to arraycatMatch is the one getVariable found", c.pos(cl), "getVariable's first result, unchanged", "the variable matched against the left-over elements is not (only) the variable of the pattern array")
+			}
+		}
+	})
+	if vcall == nil {
+		c.R.Violate(rule, "match: the array's variable is matched by arraycatMatch", c.pos(gv), "no call of arraycatMatch with the variable found")
+		return
+	}
+	// the constants iterated are getVariable's
+	nrange := 0
+	for _, l := range flow.Loops(match) {
+		op := loopOperand(l)
+		if op == nil || !gv.Block().Dominates(l.Header) {
+			continue
+		}
+		if sl, ok := op.Type().Underlying().(*types.Slice); !ok || !types.IsInterface(sl.Elem()) {
+			continue
+		}
+		if onlyFrom(op, xs) {
+			nrange++
+		} else if ds := deepDefs(op, scope); len(ds) > 0 {
+			for _, d := range ds {
+				if d == xs {
+					// xs mixed with something else
+					c.R.Violate(rule, "match: the constant elements iterated are the ones getVariable found", c.pos(l.Header.Instrs[0]), "the list of the pattern array's other elements is extended or replaced before it is matched")
+					nrange++
+				}
+			}
+		}
+	}
+	if nrange == 0 {
+		c.R.Violate(rule, "match: the constant elements iterated are the ones getVariable found", c.pos(gv), "no loop over getVariable's second result found")
+	} else {
+		c.R.Discharge(rule, "match: the constant elements iterated are the ones getVariable found", c.pos(gv), "the loop ranges over getVariable's second result itself")
+	}
+	// success exits
+	n := 0
+	for _, b := range match.Blocks {
+		ret, ok := b.Instrs[len(b.Instrs)-1].(*ssa.Return)
+		if !ok || len(ret.Results) != 2 || !gv.Block().Dominates(b) || b == gv.Block() {
+			continue
+		}
+		for _, d := range phiEdgesWithBlocks(ret.Results[0], b) {
+			if ssau.IsNilConst(d.v) {
+				continue
+			}
+			n++
+			noVar := false
+			for _, ft := range flow.Expand(flow.FactsAt(d.b)) {
+				if bo, isB := ft.Cond.(*ssa.BinOp); isB && ((bo.Op == token.EQL && ft.True) || (bo.Op == token.NEQ && !ft.True)) {
+					x, y := bo.X, bo.Y
+					if _, isC := x.(*ssa.Const); isC {
+						x, y = y, x
+					}
+					if s, isS := ssau.ConstString(y); isS && s == "" && x == v {
+						noVar = true
+					}
+				}
+			}
+			after := vcall.Block() == d.b || vcall.Block().Dominates(d.b)
+			c.R.Check(noVar || after, rule, fmt.Sprintf("match: success exit #%d of the array case", n), c.pos(ret), "under 'the pattern array has no variable', or after arraycatMatch matched the variable", "a pattern array with a variable can match without the variable having been matched against an element of its own (arraycatMatch is also where a bound or inequality variable is judged)")
+		}
+	}
+	if n == 0 {
+		c.R.Break(rule + ": no success exit of the array case found")
+	}
+}
